@@ -23,8 +23,16 @@ func VerifC19_SortQueuesPermutationInvariant() {
 		q.currentPriority = int32(vRange(names[i]+".prio", -1, 1))
 		q.pending = resources.NewResourceFromMap(map[string]resources.Quantity{"k0": 1})
 		qs[i] = q
-		fm[i] = resources.NewResourceFromMap(map[string]resources.Quantity{"k0": resources.Quantity(100 + i)})
+		// fair share of a candidate = usage / fair-max (single type k0, no guarantee): see the engine's share summary
+		fm[i] = resources.NewResourceFromMap(map[string]resources.Quantity{"k0": resources.Quantity(vRange(names[i]+".fairmax", 1, 4))})
+		q.allocatedResource = resources.NewResourceFromMap(map[string]resources.Quantity{"k0": resources.Quantity(vRange(names[i]+".alloc", 0, 8))})
+		q.guaranteedResource = nil
 	}
+	// the fair policy distinguishes every pair: the ratios usage/fair-max are pairwise different
+	rat := func(i, j int) bool {
+		return qs[i].allocatedResource.Resources["k0"]*fm[j].Resources["k0"] != qs[j].allocatedResource.Resources["k0"]*fm[i].Resources["k0"]
+	}
+	vAssume(rat(0, 1) && rat(1, 2) && rat(0, 2))
 	fair := vBool("fair")
 	prio := vBool("considerPriority")
 	vSplit("fair")
